@@ -29,8 +29,10 @@ Inductive c15_case :=
         (impl_nfa : nfa) (impl_dfa : list cstate) (impl_obs : obs)
         (probes : list (list N * obs))
         (consistent : bool)   (* single-stepping with transition agrees with transition_many on every string *)
+        (size_ok : bool)      (* DFA::size() = number of states reachable from start (agree only) *)
 | Crashed (e : regex)         (* the implementation panicked while building / compiling / stepping *)
-| Skipped (e : regex).        (* automaton too large for the observation budget: nothing observed *)
+| Skipped (e : regex).        (* automaton too large for the observation budget: nothing observed;
+                                 reported as a disagreement, never silently passed *)
 
 (* ---------- equality tests ---------- *)
 
@@ -183,9 +185,28 @@ Fixpoint obs_spec (sigma : list N) (wf : bool) (ts : list N) (r : regex) (alts :
              end) sigma kids)
   end.
 
+(* tags only, against a list of (tag, residual): used with `tex e` on the AGREE side
+   (the general tag law describes this construction, not the property) *)
+Fixpoint obs_tags (sigma : list N) (alts : list (N * regex)) (o : obs) {struct o} : bool :=
+  match o with
+  | Dead _ => true
+  | Live _ _ _ tags kids =>
+      nlist_eqb tags (spec_tags alts)
+      && (is_nil kids ||
+          (fix go (cs : list N) (ks : list obs) {struct ks} : bool :=
+             match cs, ks with
+             | [], [] => true
+             | c :: cs', k :: ks' => obs_tags sigma (deriv_alts c alts) k && go cs' ks'
+             | _, _ => false
+             end) sigma kids)
+  end.
+
+Definition probe_tags (e : regex) (p : list N * obs) : bool :=
+  obs_tags [] (fold_left (fun al c => deriv_alts c al) (fst p) (tex e)) (snd p).
+
 Definition probe_spec (wf : bool) (e : regex) (p : list N * obs) : bool :=
   obs_spec [] wf (all_tags e) (derivs (fst p) e)
-           (fold_left (fun al c => deriv_alts c al) (fst p) (tex e)) (snd p)
+           (fold_left (fun al c => deriv_alts c al) (fst p) (tagalts e)) (snd p)
   && Bool.eqb (obs_matches (snd p)) (matcher e (fst p)).
 
 Definition bytes_ok (s : list N) : bool := forallb (fun c => N.ltb c 256) s.
@@ -193,11 +214,14 @@ Definition bytes_ok (s : list N) : bool := forallb (fun c => N.ltb c 256) s.
 Definition c15_check (c : c15_case) : bool * bool :=
   match c with
   | Crashed _ => (false, false)         (* building / compiling / stepping never panics *)
-  | Skipped _ => (true, true)
-  | Built e sigma infa idfa iobs probes consistent =>
-      (* tags are judged for every expression by the general law (TagLaw.tag_law): tex e *)
-      let wf := true in
-      ( consistent
+  | Skipped _ => (false, true)
+  | Built e sigma infa idfa iobs probes consistent size_ok =>
+      (* HOLDS judges tags as the property states them: for the tagged-choice shape the tags
+         of the matching alternatives (tagalts); elsewhere only that every reported tag is a
+         tag of the expression.  The general law tex (TagLaw.tag_law) describes where THIS
+         construction keeps tags (shared stop states) and is compared on the AGREE side. *)
+      let wf := tagwf e in
+      ( consistent && size_ok
         && nfa_eqb (build e) infa
         (* compile_fast_default = compile_default (CompileFastProofs.compile_fast_default_eq) *)
         && match compile_fast_default (build e) with
@@ -209,10 +233,12 @@ Definition c15_check (c : c15_case) : bool * bool :=
                && obs_model d sigma (Some (dstart d)) iobs
                && forallb (probe_model d) probes
            | _ => false
-           end,
+           end
+        && obs_tags sigma (tex e) iobs
+        && forallb (probe_tags e) probes,
         consistent
         && bytes_ok sigma && forallb (fun p => bytes_ok (fst p)) probes
-        && obs_spec sigma wf (all_tags e) e (tex e) iobs
+        && obs_spec sigma wf (all_tags e) e (tagalts e) iobs
         && forallb (probe_spec wf e) probes )
   end.
 
